@@ -21,9 +21,9 @@ type vclock struct {
 	ns int64
 }
 
-func newVClock() *vclock              { return &vclock{Clock: clock.NewMock()} }
-func (c *vclock) Now() time.Time      { return time.Unix(0, atomic.LoadInt64(&c.ns)) }
-func (c *vclock) advance(d int64)     { atomic.AddInt64(&c.ns, d) }
+func newVClock() *vclock                          { return &vclock{Clock: clock.NewMock()} }
+func (c *vclock) Now() time.Time                  { return time.Unix(0, atomic.LoadInt64(&c.ns)) }
+func (c *vclock) advance(d int64)                 { atomic.AddInt64(&c.ns, d) }
 func (c *vclock) Since(t time.Time) time.Duration { return c.Now().Sub(t) }
 
 var errFail = errors.New("c15: scripted failure")
@@ -102,6 +102,74 @@ type sigMsg struct {
 type liveCall struct {
 	id  int
 	fin chan bool
+	by  *caller
+}
+
+// Calls block inside f, so each call in flight needs its own goroutine. Goroutine creation is the
+// bottleneck under the race detector, so callers are pooled and reused across events and sequences.
+type job struct {
+	x *seqRun
+	c *liveCall
+}
+
+type caller struct{ jobs chan job }
+
+func (c *caller) loop() {
+	for j := range c.jobs {
+		j.x.invoke(j.c)
+	}
+}
+
+type callerPool struct{ free, all []*caller }
+
+func (p *callerPool) get() *caller {
+	if n := len(p.free); n > 0 {
+		c := p.free[n-1]
+		p.free = p.free[:n-1]
+		return c
+	}
+	c := &caller{jobs: make(chan job)}
+	p.all = append(p.all, c)
+	go c.loop()
+	return c
+}
+
+func (p *callerPool) put(c *caller) { p.free = append(p.free, c) }
+
+func (p *callerPool) close() {
+	for _, c := range p.all {
+		close(c.jobs)
+	}
+}
+
+var pools = make(chan *callerPool, 256)
+
+func getPool() *callerPool {
+	select {
+	case p := <-pools:
+		return p
+	default:
+		return &callerPool{}
+	}
+}
+
+func putPool(p *callerPool) {
+	select {
+	case pools <- p:
+	default:
+		p.close()
+	}
+}
+
+func closePools() {
+	for {
+		select {
+		case p := <-pools:
+			p.close()
+		default:
+			return
+		}
+	}
 }
 
 type viol struct {
@@ -133,12 +201,13 @@ type seqRun struct {
 	nextID int
 	trace  []event
 	st     *stats
+	pool   *callerPool
 	exp    string // filled on violation
 	obs    string
 }
 
-func newSeqRun(p params, st *stats) *seqRun {
-	x := &seqRun{p: p, clk: newVClock(), sig: make(chan sigMsg), st: st}
+func newSeqRun(p params, st *stats, pool *callerPool) *seqRun {
+	x := &seqRun{p: p, clk: newVClock(), sig: make(chan sigMsg), st: st, pool: pool}
 	x.r.trip, x.r.reset, x.r.cap = int32(p.Trip), int32(p.Reset), int32(p.Cap)
 	x.b = circuit.NewBreaker(&circuit.Options{
 		HalfOpenConcurrentRequests: p.Cap,
@@ -244,6 +313,8 @@ func diffHooks(exp, got []hookEv, stale bool) string {
 		}
 		if i < len(got) {
 			switch {
+			case got[i].Backoff && stale:
+				return "seq: stale-outcome-changed-backoff"
 			case got[i].Backoff:
 				return "seq: spurious-backoff"
 			case stale:
@@ -271,10 +342,13 @@ func (x *seqRun) apply(ev event) *viol {
 	case 'S':
 		st.c[cStart]++
 		v := x.r.start(&o)
-		c := &liveCall{id: x.nextID, fin: make(chan bool, 1)}
+		c := &liveCall{id: x.nextID, fin: make(chan bool, 1), by: x.pool.get()}
 		x.nextID++
-		go x.invoke(c)
+		c.by.jobs <- job{x, c}
 		m := <-x.sig
+		if !m.entered {
+			x.pool.put(c.by)
+		}
 		if m.id != c.id {
 			return x.fail("seq: harness-lost-sync", fmt.Sprint("signal of call ", c.id), fmt.Sprint("signal of call ", m.id))
 		}
@@ -336,6 +410,7 @@ func (x *seqRun) apply(ev event) *viol {
 		x.r.finish(ev.G, ev.OK, &o)
 		c.fin <- ev.OK
 		m := <-x.sig
+		x.pool.put(c.by)
 		if m.id != c.id || m.entered {
 			return x.fail("seq: harness-lost-sync", fmt.Sprint("return of call ", c.id), fmt.Sprint("signal of call ", m.id))
 		}
@@ -379,9 +454,15 @@ func (x *seqRun) apply(ev event) *viol {
 
 	// hook calls made during this event
 	x.mu.Lock()
-	got := append([]hookEv(nil), x.hooks...)
-	durs := append([]int64(nil), x.durs...)
+	var gotA [6]hookEv
+	var dursA [6]int64
+	got := gotA[:copy(gotA[:], x.hooks)]
+	durs := dursA[:copy(dursA[:], x.durs)]
+	tooMany := len(x.hooks) > len(gotA)
 	x.mu.Unlock()
+	if tooMany {
+		return x.fail("seq: spurious-state-change", "at most a few hook calls per event", "more than 6")
+	}
 	for _, h := range got {
 		switch {
 		case h.Backoff:
@@ -416,6 +497,10 @@ func (x *seqRun) apply(ev event) *viol {
 	// H1 snapshot
 	rs, rc, rgen, rexp := x.b.VerifSnapshot()
 	r := &x.r
+	if rc.CurrentRequests == int(r.inflight) && toState(rs) == r.st && rc.ConsecutiveFailures == int(r.cf) &&
+		rc.ConsecutiveSuccesses == int(r.cs) && rgen == int(r.gen) && (r.st != sOpen || rexp.UnixNano() == r.deadline) {
+		return nil
+	}
 	obs := fmt.Sprintf("state=%s counts=%+v generation=%d", rs, rc, rgen)
 	exp := fmt.Sprintf("state=%s in-flight=%d failures=%d successes=%d generation=%d", stateNames[r.st], r.inflight, r.cf, r.cs, r.gen)
 	switch {
@@ -442,10 +527,8 @@ func (x *seqRun) apply(ev event) *viol {
 		return x.fail("seq: generation-not-monotone", exp, obs)
 	case rgen != int(r.gen):
 		return x.fail("seq: generation-mismatch", exp, obs)
-	case r.st == sOpen && rexp.UnixNano() != r.deadline:
-		return x.fail("seq: backoff-deadline-mismatch", fmt.Sprintf("deadline %v as announced by OnBackoff", time.Duration(r.deadline)), fmt.Sprintf("deadline %v", time.Duration(rexp.UnixNano())))
 	}
-	return nil
+	return x.fail("seq: backoff-deadline-mismatch", fmt.Sprintf("deadline %v as announced by OnBackoff", time.Duration(r.deadline)), fmt.Sprintf("deadline %v", time.Duration(rexp.UnixNano())))
 }
 
 // drain finishes every call still running (checked like any other event) so no goroutine is left behind.
@@ -465,6 +548,7 @@ func (x *seqRun) cleanup() {
 		if c := x.calls[i]; c != nil {
 			c.fin <- true
 			<-x.sig
+			x.pool.put(c.by)
 			x.calls[i] = nil
 		}
 	}
